@@ -303,3 +303,181 @@ Proof.
     + exact Hall'.
     + rewrite <- app_assoc. exact Hnd.
 Qed.
+
+(* ------------------------------------------------------------------ the main signature *)
+Lemma validate_main n mm lm rest_entries hashes h : (0 <= n < 65536)%Z -> asc_in n lm -> lm <> [] ->
+  alist_find mm hashes = Some h ->
+  validate (mk_ffin n mm [(key_id (lenZ lm) (rank n 0 lm), FAgg mm lm)] rest_entries) hashes =
+  validate_rest n hashes (ordered_rest rest_entries) (mask_of lm) [(h, mask_of lm)].
+Proof.
+  intros Hn Ha Hne Hh.
+  pose proof (asc_in_len _ _ Ha ltac:(lia)) as Hle.
+  assert (Hl1 : (1 <= lenZ lm)%Z).
+  { destruct lm as [|x l']; [congruence|]. rewrite lenZ_cons. pose proof (lenZ_nonneg l'). lia. }
+  unfold validate. cbn [ff_n ff_main_sigs ff_main_msg ff_rest].
+  destruct (key_id_parse (lenZ lm) (rank n 0 lm) ltac:(lia)) as (a & b & Ek & Ev).
+  rewrite Ek, Ev.
+  destruct (Z.gtb_spec (lenZ lm) n) as [G|_]; [lia|].
+  rewrite of_be_bytes_be_bytes. unfold index_in_range.
+  assert (C1 : ((lenZ lm <? 1) || (lenZ lm >? n))%Z = false) by lia. rewrite C1.
+  rewrite binom_chk_ok by lia. cbn [bind].
+  pose proof (rank_lt0 _ _ Ha) as Hr.
+  assert (C2 : (rank n 0 lm <? B n (lenZ lm)) = true) by lia. rewrite C2. cbn [negb].
+  assert (Hdec : decode n (lenZ lm) (rank n 0 lm) = Ok (mask_of lm)).
+  { unfold lenZ. apply decode_encode; [exact Ha|exact Hne|]. apply encode_rank. exact Ha. }
+  rewrite Hdec. cbn [bind]. rewrite (positions_mask_of n lm Ha).
+  assert (Hv : fverify lm mm (FAgg mm lm) = true).
+  { destruct lm as [|x l']; [congruence|]. cbn [fverify]. rewrite bytes_eqb_refl, listZ_eqb_refl. reflexivity. }
+  rewrite Hv. cbn [negb]. rewrite Hh. reflexivity.
+Qed.
+
+Definition hash_entry (hf : list N -> list N) (b : block) : list N * N := (hf (fst b), mask_of (snd b)).
+
+Lemma map_fp_msg bs : map fp_msg (map fp_of bs) = map fst bs.
+Proof. rewrite map_map. apply map_ext. intros b. reflexivity. Qed.
+
+Lemma lists_used_mask n l : asc_in n l -> lists_used (mask_of l) l.
+Proof.
+  intros Ha x Hx. apply mask_of_testbit_In; [|exact Hx].
+  intros y Hy. pose proof (asc_from_In _ _ _ _ Ha Hy). lia.
+Qed.
+
+(** Finalize then ValidateFinalizedProof: exactly the blocks' signer sets, all-unique flag true. *)
+Theorem finalize_validate_roundtrip : forall n main rest hashes hf,
+  (0 <= n < 65536)%Z ->
+  Forall (fun b => asc_in n (snd b)) (main :: rest) ->
+  snd main <> [] ->
+  NoDup (List.concat (map snd (main :: rest))) ->
+  NoDup (map fst (main :: rest)) ->
+  (forall b, In b (main :: rest) -> alist_find (fst b) hashes = Some (hf (fst b))) ->
+  NoDup (map (fun b => hf (fst b)) (main :: rest)) ->
+  exists sorted, Permutation sorted rest /\ StronglySorted blt (map fp_of sorted) /\
+    finalize_validate n (fp_of main) (map fp_of rest) hashes =
+    Ok (Some (map (hash_entry hf) (main :: filter nonempty sorted)), true).
+Proof.
+  intros n [mm lm] rest hashes hf Hn Hall Hne Hdisj Hmsgs Hh Hhinj.
+  inversion Hall as [|? ? Ham Hall']; subst. cbn [fst snd] in *.
+  inversion Hmsgs as [|? ? Hmni Hmsgs']; subst. inversion Hhinj as [|? ? Hhni Hhinj']; subst.
+  cbn [map List.concat] in Hdisj.
+  assert (Hhm : alist_find mm hashes = Some (hf mm)) by (apply (Hh (mm, lm)); left; reflexivity).
+  unfold finalize_validate, finalize. cbn [fp_of fp_bits fp_msg fst snd].
+  rewrite (encode_mask_rank n lm Ham). cbn [bind].
+  rewrite (popcountZ_mask_of_len n lm Ham), (bits_all_mask_of n lm Ham).
+  destruct rest as [|r0 rest'].
+  - cbn [map bind]. exists []. split; [constructor|]. split; [constructor|].
+    rewrite (validate_main n mm lm [] hashes (hf mm)) by assumption.
+    reflexivity.
+  - set (rest := r0 :: rest') in *.
+    assert (Hnd : NoDup (map fp_msg (map fp_of rest))) by (rewrite map_fp_msg; exact Hmsgs').
+    destruct (sort_rest_spec _ Hnd) as (s & Es & Hperm & Hss).
+    apply Permutation_map_inv in Hperm as (sb & -> & Hperm).
+    change (map fp_of rest) with (fp_of r0 :: map fp_of rest') at 1.
+    cbv iota. fold rest. rewrite Es. cbn [bind].
+    assert (Hall_sb : Forall (fun b => asc_in n (snd b)) sb) by (eapply Permutation_Forall; eassumption).
+    assert (Hok : blocks_ok n (mask_of lm) sb).
+    { apply (blocks_ok_of_nodup n sb (mask_of lm) lm); [apply (lists_used_mask n); exact Ham|exact Hall_sb|].
+      eapply Permutation_NoDup; [|exact Hdisj]. apply Permutation_app_head.
+      apply Permutation_concat_map. exact Hperm. }
+    assert (Hb0 : below n (mask_of lm)) by (apply (mask_of_below 0 n); [lia|exact Ham]).
+    rewrite (finalize_rest_spec n ltac:(lia) sb (mask_of lm) [] Hb0 Hok).
+    2:{ eapply Permutation_NoDup; [|exact Hmsgs']. apply Permutation_map. exact Hperm. }
+    2:{ intros; reflexivity. }
+    cbn [bind app].
+    rewrite (validate_main n mm lm _ hashes (hf mm)) by assumption.
+    rewrite (fin_entries_ordered n Hn sb (mask_of lm) Hall_sb Hss).
+    rewrite (validate_rest_spec n hashes hf Hn sb (mask_of lm) [(hf mm, mask_of lm)] Hb0 Hok).
+    + exists sb. split; [apply Permutation_sym; exact Hperm|]. split; [exact Hss|]. reflexivity.
+    + intros b Hb. apply Hh. right. eapply Permutation_in; [apply Permutation_sym; exact Hperm|exact Hb].
+    + eapply Permutation_NoDup; [|exact Hhinj']. apply Permutation_map. exact Hperm.
+    + intros b Hb. cbn [alist_find]. destruct (bytes_eqb (hf mm) (hf (fst b))) eqn:E; [|reflexivity].
+      exfalso. apply bytes_eqb_eq in E. apply Hhni. rewrite E.
+      apply (in_map (fun b0 => hf (fst b0))). eapply Permutation_in; [apply Permutation_sym; exact Hperm|exact Hb].
+Qed.
+
+(* ------------------------------------------------------------------ order independence *)
+(** The finalized proof does not depend on the order in which the rest proofs are handed to Finalize. *)
+Theorem finalize_order_irrelevant : forall n main rest rest',
+  Permutation rest rest' -> NoDup (map fp_msg rest) -> finalize n main rest = finalize n main rest'.
+Proof.
+  intros n main rest rest' Hp Hnd. unfold finalize.
+  destruct (encode_mask n (fp_bits main)) as [idx|s]; [|reflexivity]. cbn [bind].
+  destruct rest as [|a t], rest' as [|a' t'].
+  - reflexivity.
+  - apply Permutation_nil in Hp. discriminate.
+  - apply Permutation_sym, Permutation_nil in Hp. discriminate.
+  - rewrite (sort_rest_perm _ _ Hp Hnd). reflexivity.
+Qed.
+
+(** ValidateFinalizedProof does not depend on the iteration order of the Rest map. *)
+Theorem validate_map_order_irrelevant : forall n mm ms r r' hashes,
+  Permutation r r' -> NoDup (map fst r) ->
+  validate (mk_ffin n mm ms r) hashes = validate (mk_ffin n mm ms r') hashes.
+Proof.
+  intros n mm ms r r' hashes Hp Hnd. unfold validate. cbn [ff_n ff_main_sigs ff_main_msg ff_rest].
+  rewrite (ordered_rest_perm _ _ Hp Hnd). reflexivity.
+Qed.
+
+(* ------------------------------------------------------------------ totality of ValidateFinalizedProof *)
+Lemma validate_rest_total n hashes : (0 <= n)%Z -> forall rest used out, below n used ->
+  (forall e, In e rest -> alist_find (fst e) hashes <> None) ->
+  exists r, validate_rest n hashes rest used out = Ok r.
+Proof.
+  intros Hn. induction rest as [|[msg sigs] t IH]; intros used out Hb Hh; [eexists; reflexivity|].
+  cbn [validate_rest].
+  destruct sigs as [|[kid sg] [|? ?]]; try (eexists; reflexivity).
+  destruct kid as [|a [|b idxb]]; try (eexists; reflexivity).
+  rewrite create_projection_ok by assumption. cbn [bind].
+  set (proj := proj_of n used). set (k := Z.of_N (a * 256 + b)). set (idx := of_be_bytes idxb).
+  destruct (Z.gtb_spec k (lenZ proj)) as [G|G]; [eexists; reflexivity|].
+  unfold index_in_range.
+  destruct ((k <? 1) || (k >? lenZ proj))%Z eqn:C1; [cbn [bind negb]; eexists; reflexivity|].
+  rewrite binom_chk_ok by lia. cbn [bind].
+  destruct (N.ltb_spec idx (B (lenZ proj) k)) as [L|L]; cbn [negb]; [|eexists; reflexivity].
+  destruct (decode_ok_of_range (lenZ proj) k idx ltac:(lia) L) as (m & Em). rewrite Em. cbn [bind].
+  destruct (decode_sound (lenZ proj) k idx m ltac:(lia) Em) as (l & Hl & _ & -> & _).
+  rewrite (bits_all_mask_of _ _ Hl).
+  rewrite (unproject_ok proj 0 n ltac:(lia) (proj_of_asc n used Hn) l 0 used 0 ltac:(lia) Hl).
+  2:{ intros j Hj. pose proof (nthZ_In proj j Hj) as Hin. apply proj_of_In in Hin. apply Hin. }
+  cbn [bind].
+  destruct (fverify _ msg sg); cbn [negb]; [|eexists; reflexivity].
+  destruct (alist_find msg hashes) as [h|] eqn:Eh.
+  - apply IH.
+    + apply lor_below; [exact Hb|]. apply mask_of_below_list. intros x Hx.
+      apply in_map_iff in Hx as (j & <- & Hj). pose proof (asc_from_In _ _ _ _ Hl Hj) as Bj.
+      pose proof (nthZ_In proj j Bj) as Hin. apply proj_of_In in Hin. lia.
+    + intros e He. apply Hh. right. exact He.
+  - exfalso. apply (Hh (msg, [(a :: b :: idxb, sg)]) (or_introl eq_refl)). exact Eh.
+Qed.
+
+(** hashesBySignContent names every sign content of the proof (the caller builds both from the same map). *)
+Definition hashes_cover (hashes : list (list N * list N)) (f : ffin) : Prop :=
+  alist_find (ff_main_msg f) hashes <> None /\ forall e, In e (ff_rest f) -> alist_find (fst e) hashes <> None.
+
+(** No panic for ANY finalized input - any key id bytes, signatures, number of rest entries, any number
+    of keys including none. *)
+Theorem validate_finalized_total : forall f hashes, (0 <= ff_n f)%Z -> hashes_cover hashes f ->
+  exists r, validate f hashes = Ok r.
+Proof.
+  intros f hashes Hn [Hm Hr]. unfold validate.
+  destruct (ff_main_sigs f) as [|[kid sg] [|? ?]]; try (eexists; reflexivity).
+  destruct kid as [|a [|b idxb]]; try (eexists; reflexivity).
+  set (n := ff_n f) in *. set (k := Z.of_N (a * 256 + b)). set (idx := of_be_bytes idxb).
+  destruct (Z.gtb_spec k n) as [G|G]; [eexists; reflexivity|].
+  unfold index_in_range.
+  destruct ((k <? 1) || (k >? n))%Z eqn:C1; [cbn [bind negb]; eexists; reflexivity|].
+  rewrite binom_chk_ok by lia. cbn [bind].
+  destruct (N.ltb_spec idx (B n k)) as [L|L]; cbn [negb]; [|eexists; reflexivity].
+  destruct (decode_ok_of_range n k idx ltac:(lia) L) as (m & Em). rewrite Em. cbn [bind].
+  destruct (decode_sound n k idx m ltac:(lia) Em) as (l & Hl & _ & -> & _).
+  destruct (fverify _ (ff_main_msg f) sg); cbn [negb]; [|eexists; reflexivity].
+  destruct (alist_find (ff_main_msg f) hashes) as [h|] eqn:Eh; [|congruence].
+  apply validate_rest_total; [exact Hn| |].
+  - apply (mask_of_below 0 n); [lia|exact Hl].
+  - intros e He. apply Hr. apply ordered_rest_In. exact He.
+Qed.
+
+(** The guard is needed: a sign content without a hash is the one panic left ("BUG: missing hash"). *)
+Example validate_missing_hash_panics :
+  validate (mk_ffin 4 [1] [([0; 3], FAgg [1] [0; 1; 2]%Z)] []) [] =
+  Panic "ValidateFinalizedProof:468(missing main hash)".
+Proof. vm_compute. reflexivity. Qed.
